@@ -1,5 +1,5 @@
 (* C06, second part: duplicate-ACK threshold (Conn/Recovery.v), fast retransmit, Karn. *)
-From Utp Require Import Base.Prelude Wire.SeqNr Wire.Header Rtt.Rtte Mtu.SegSizes Tx.Ring Tx.Segments Tx.Segments_Proofs
+From Utp Require Import Base.Prelude Wire.SeqNr Wire.Header Rtt.Rtte Mtu.SegSizes Rx.Rx Tx.Ring Tx.Segments Tx.Segments_Proofs
   Conn.Recovery Conn.Msg Conn.VSockRec Conn.VSock Conn.VSock_LemmasTx Conn.VSock_LemmasIn.
 
 (* ---- how duplicates are counted ---- *)
@@ -299,3 +299,304 @@ Proof.
   destruct (Z.min (ar_acked_bytes r) (Z.of_nat (length (ring tx))) =? ar_acked_bytes r); [|discriminate].
   injection Ht as <-. cbn [g_removed upd]. lia.
 Qed.
+
+(* ---- the joint relation of ring and table across process_all_incoming_messages ----
+   Since the repair of D17 (finding T1) the bookkeeping after the receive loop runs whichever
+   way the loop ended, so the relation is re-established also in the poll in which the message
+   channel closes.  p = bytes acknowledged by the messages processed so far in this call and not
+   yet truncated from the ring. *)
+Lemma sum_sizes_len0 (l : list seg) : length l = 0%nat -> sum_sizes l = 0.
+Proof. destruct l; [reflexivity|discriminate]. Qed.
+
+(* an ACK that removed no segment removed no byte *)
+Lemma remove_up_to_ack_zero t now ack sk t' r :
+  remove_up_to_ack t now ack sk = (t', r) -> ar_acked_segments r = 0 -> ar_acked_bytes r = 0.
+Proof.
+  unfold remove_up_to_ack.
+  set (dc := if 0 <=? seq_sub ack (ss_snd_una t) then _ else 0%nat).
+  set (a1 := drain_acc (firstn dc (ss_segs t)) now _).
+  destruct (drain_acc_spec (firstn dc (ss_segs t)) now {| ac_rtt := None; ac_maxp := 0; ac_cnt := 0; ac_bytes := 0 |})
+    as [Hc1 Hb1]. fold a1 in Hc1, Hb1. cbn [ac_cnt ac_bytes] in Hc1, Hb1.
+  destruct (sack_phase t (skipn dc (ss_segs t)) a1 _ now ack sk) as [[[rest2 a2] depth] lse].
+  destruct (strip_delivered rest2 0 0) as [[rest3 cnt3] bytes3] eqn:E3.
+  destruct (strip_delivered_spec _ _ _ _ _ _ E3) as (dropped & Hd & Hc3 & Hb3 & _).
+  intro H; injection H as _ <-. cbn [ar_acked_segments ar_acked_bytes]. intro Hz.
+  rewrite (sum_sizes_len0 (firstn dc (ss_segs t))) in Hb1 by lia.
+  rewrite (sum_sizes_len0 dropped) in Hb3 by lia. lia.
+Qed.
+
+Lemma calc_pipe_fields t hr hd rtt now t' p rc :
+  calc_pipe t hr hd rtt now = Some (t', p, rc) ->
+  ss_removed t' = ss_removed t /\ ss_offset t' = ss_offset t.
+Proof.
+  unfold calc_pipe. destruct (_ <? _); [discriminate|].
+  destruct (pipe_loop _ t hr _ now _) as [u a]. intro H; injection H as <- _ _.
+  unfold Segments.set_segs; cbn [ss_removed ss_offset]. auto.
+Qed.
+
+Section Joint.
+Context {CC : Type} (cci : cc_iface CC).
+Notation vsock := (vsock CC).
+
+Definition joint_rel (p : Z) (s : vsock) : Prop :=
+  seg_inv (v_segs s) /\
+  g_removed (v_tx s) + p = ss_removed (v_segs s) /\
+  ss_offset (v_segs s) <= g_removed (v_tx s) + Z.of_nat (length (ring (v_tx s))).
+
+(* the table and the two ring fields the relation reads are unchanged *)
+Definition jt_frame (s s' : vsock) : Prop :=
+  v_segs s' = v_segs s /\ ring (v_tx s') = ring (v_tx s) /\ g_removed (v_tx s') = g_removed (v_tx s).
+
+Lemma jt_refl s : jt_frame s s.
+Proof. unfold jt_frame; repeat split. Qed.
+
+Lemma jt_trans a b c : jt_frame a b -> jt_frame b c -> jt_frame a c.
+Proof. unfold jt_frame. intros (A1&A2&A3) (B1&B2&B3). repeat split; congruence. Qed.
+
+Lemma joint_frame p s s' : joint_rel p s -> jt_frame s s' -> joint_rel p s'.
+Proof. unfold joint_rel, jt_frame. intros (A&B&C) (E1&E2&E3). rewrite E1, E2, E3. auto. Qed.
+
+Lemma sd_jt s s' : sd_frame s s' -> v_segs s' = v_segs s -> jt_frame s s'.
+Proof.
+  unfold sd_frame, jt_frame. intros (Htx & _) Hs. rewrite Htx. auto.
+Qed.
+
+Lemma send_ack_jt (s : vsock) :
+  match send_ack s with
+  | SOk s1 _ | SErr s1 _ => jt_frame s s1
+  | SPanic => True
+  end.
+Proof.
+  unfold send_ack. pose proof (send_control_packet_spec s
+    (hdr_with (outgoing_header s) ST_STATE (ch_seq (outgoing_header s)) (sack_of_rx (v_rx s)))) as H.
+  destruct (send_control_packet s _) as [s1 [|]|s1 e|]; try exact I.
+  - destruct H as (Hf & _ & A & _). apply sd_jt; assumption.
+  - destruct H as (Hf & _ & A & _). apply sd_jt; assumption.
+  - destruct H as (Hf & _ & A & _). apply sd_jt; assumption.
+Qed.
+
+Lemma maybe_send_fin_jt (s : vsock) :
+  match maybe_send_fin s with
+  | SOk s1 _ | SErr s1 _ => jt_frame s s1
+  | SPanic => True
+  end.
+Proof.
+  pose proof (maybe_send_fin_spec s) as H.
+  destruct (maybe_send_fin s) as [s1 [|]|s1 e|]; try exact I.
+  - destruct H as (seq & _ & _ & Hf & _ & A & _). apply sd_jt; assumption.
+  - destruct H as (Hf & _ & A & _). apply sd_jt; assumption.
+  - destruct H as (Hf & _ & A & _). apply sd_jt; assumption.
+Qed.
+
+Lemma state_table_jt (s : vsock) h : jt_frame s (tbl_state (state_table s h)).
+Proof.
+  unfold state_table, restart_remote_inactivity_timer, jt_frame.
+  destruct (ch_type h); destruct (v_state s); cbn [tbl_state negb];
+    repeat (match goal with |- context [if ?c then _ else _] => destruct c end);
+    cbn [tbl_state]; vsimpl; repeat split.
+Qed.
+
+Lemma pim_data_jt s2 m res offset s' r :
+  pim_data cci s2 m res offset = SOk s' r -> jt_frame s2 s' /\ r = res.
+Proof.
+  unfold pim_data. destruct (offset <? 0).
+  { intro H; injection H as <- <-. split; [|reflexivity]. unfold jt_frame, force_immediate_ack. vsimpl. repeat split. }
+  cbv zeta.
+  destruct (rx_add_remove _ KData (m_payload m) offset) as [[rx1 ar] w].
+  set (s4 := add_wakes _ _).
+  assert (H4 : jt_frame s2 s4) by (unfold s4, add_wakes, jt_frame; vsimpl; repeat split).
+  clearbody s4.
+  destruct ar as [r0|]; [|discriminate].
+  destruct (add_err r0); [discriminate|].
+  set (s5 := match r0 with ArConsumed _ _ => _ | _ => s4 end).
+  assert (H5 : jt_frame s2 s5).
+  { eapply jt_trans; [exact H4|]. unfold s5, restart_remote_inactivity_timer, jt_frame.
+    destruct r0; vsimpl; repeat split. }
+  clearbody s5.
+  destruct (_ || _).
+  - pose proof (send_ack_jt (force_immediate_ack s5)) as Ha.
+    destruct (send_ack (force_immediate_ack s5)) as [s6 b|s6 e|]; cbn [sbind]; [|discriminate|discriminate].
+    intro H; injection H as <- <-. split; [|reflexivity].
+    eapply jt_trans; [exact H5|]. eapply jt_trans; [|exact Ha].
+    unfold jt_frame, force_immediate_ack; vsimpl; repeat split.
+  - intro H; injection H as <- <-. auto.
+Qed.
+
+Lemma pim_fin_jt s2 m res offset seen s' r :
+  pim_fin s2 m res offset seen = SOk s' r -> jt_frame s2 s' /\ r = res.
+Proof.
+  unfold pim_fin. cbv zeta. destruct (_ && _).
+  - destruct (rx_add_remove _ KFin _ _) as [[rx1 ar] w].
+    destruct ar as [r0|]; [|discriminate].
+    destruct (add_err r0); [discriminate|].
+    unfold mark_vsock_closed. intro H; injection H as <- <-. split; [|reflexivity].
+    unfold jt_frame, add_wakes, force_immediate_ack. vsimpl. cbn [ring g_removed upd]. repeat split.
+  - intro H; injection H as <- <-. split; [|reflexivity].
+    unfold jt_frame, force_immediate_ack. vsimpl. repeat split.
+Qed.
+
+Lemma recovery_on_ack_segs r h segs ls cc now rtt r' segs' cc' :
+  seg_inv segs -> recovery_on_ack cci r h segs ls cc now rtt = Some (r', segs', cc') ->
+  seg_inv segs' /\ ss_removed segs' = ss_removed segs /\ ss_offset segs' = ss_offset segs.
+Proof.
+  intros Hinv. unfold recovery_on_ack. cbn [rv_phase rv_supports_sack rv_last_ack].
+  destruct (rv_phase r) as [rp|d|rc].
+  - destruct (seq_ge _ _); intro H; injection H as _ <- _; auto.
+  - destruct (ss_segs segs) as [|g0 gs]; [intro H; injection H as _ <- _; auto|].
+    destruct (rv_supports_sack r || _).
+    + destruct (count_sack_duplicates h d) as [c|]; [|discriminate].
+      destruct (c <? SACK_DUP_THRESH); [intro H; injection H as _ <- _; auto|].
+      destruct (calc_pipe _ _ _ _ _) as [[[sg pipe] recalc]|] eqn:Ec; [|discriminate].
+      intro H; injection H as _ <- _.
+      destruct (calc_pipe_fields _ _ _ _ _ _ _ _ Ec) as (A & B).
+      split; [eapply calc_pipe_inv; eauto|auto].
+    + destruct (count_non_sack_duplicates h d (rv_last_ack r)) as [c la'].
+      destruct (c <? SACK_DUP_THRESH); [intro H; injection H as _ <- _; auto|].
+      destruct (calc_pipe _ _ _ _ _) as [[[sg pipe] recalc]|] eqn:Ec; [|discriminate].
+      intro H; injection H as _ <- _.
+      destruct (calc_pipe_fields _ _ _ _ _ _ _ _ Ec) as (A & B).
+      split; [eapply calc_pipe_inv; eauto|auto].
+  - destruct (seq_ge _ _); intro H; injection H as _ <- _; auto.
+Qed.
+
+(* what the result of a message, or the sum of the results of several, says about removed bytes *)
+Definition acc_ok (a : on_ack_result) : Prop :=
+  0 <= ar_acked_segments a /\ 0 <= ar_acked_bytes a /\ (ar_acked_segments a = 0 -> ar_acked_bytes a = 0).
+
+Lemma acc_ok_default : acc_ok on_ack_result_default.
+Proof. unfold acc_ok, on_ack_result_default; cbn [ar_acked_segments ar_acked_bytes]. lia. Qed.
+
+Lemma acc_ok_update a b : acc_ok a -> acc_ok b -> acc_ok (result_update a b).
+Proof. unfold acc_ok, result_update; cbn [ar_acked_segments ar_acked_bytes]. lia. Qed.
+
+Lemma pim_ack_joint s1 h s2 res p :
+  joint_rel p s1 -> pim_ack cci s1 h = Some (s2, res) ->
+  joint_rel (p + ar_acked_bytes res) s2 /\ acc_ok res.
+Proof.
+  intros (Hinv & Hj & Hb). unfold pim_ack.
+  destruct (remove_up_to_ack (v_segs s1) (v_now s1) (ch_ack h) (ch_sack h)) as [segs1 res0] eqn:Er.
+  destruct (match is_recovering (v_recovery s1) with true => _ | false => _ end) as [rtte1|]; [|discriminate].
+  destruct (cc_on_ack cci _ _ _ _) as [cc3|]; [|discriminate].
+  destruct (recovery_on_ack cci _ _ _ _ _ _ _) as [[[rec1 segs2] cc4]|] eqn:Eo; [|discriminate].
+  intro H; injection H as <- <-.
+  destruct (remove_up_to_ack_inv _ _ _ _ _ _ Hinv Er) as (I1 & B1 & B2 & O1 & _ & C1).
+  destruct (recovery_on_ack_segs _ _ _ _ _ _ _ _ _ _ I1 Eo) as (I2 & R2 & O2).
+  pose proof (remove_up_to_ack_zero _ _ _ _ _ _ Er) as Hz.
+  split; [|unfold acc_ok; auto].
+  unfold joint_rel. vsimpl. split; [exact I2|]. split; lia.
+Qed.
+
+Lemma process_incoming_message_joint (s : vsock) m s' r p :
+  joint_rel p s -> process_incoming_message cci s m = SOk s' r ->
+  joint_rel (p + ar_acked_bytes r) s' /\ acc_ok r.
+Proof.
+  intro Hj. rewrite process_incoming_message_eq.
+  pose proof (state_table_jt s (m_hdr m)) as Ht.
+  destruct (state_table s (m_hdr m)) as [s1|s1 e|s1]; cbn [tbl_state] in Ht; [|discriminate|].
+  - intro H; injection H as <- <-. split; [|apply acc_ok_default].
+    cbn [on_ack_result_default ar_acked_bytes]. replace (p + 0) with p by lia.
+    eapply joint_frame; eauto.
+  - unfold pim_cont. destruct (pim_ack cci s1 (m_hdr m)) as [[s2 res]|] eqn:Ea; [|discriminate].
+    destruct (pim_ack_joint _ _ _ _ p (joint_frame _ _ _ Hj Ht) Ea) as (Hj2 & Hok). cbv zeta.
+    destruct (ch_type (m_hdr m)).
+    + intro H. destruct (pim_data_jt _ _ _ _ _ _ H) as (Hf & ->). split; [eapply joint_frame; eauto|exact Hok].
+    + intro H. destruct (pim_fin_jt _ _ _ _ _ _ _ H) as (Hf & ->). split; [eapply joint_frame; eauto|exact Hok].
+    + intro H; injection H as <- <-. auto.
+    + intro H; injection H as <- <-. auto.
+    + intro H; injection H as <- <-. auto.
+Qed.
+
+Lemma recv_loop_joint : forall fuel (s : vsock) acc s' r early,
+  acc_ok acc -> joint_rel (ar_acked_bytes acc) s ->
+  recv_loop cci fuel s acc = SOk s' (r, early) ->
+  acc_ok r /\ joint_rel (ar_acked_bytes r) s'.
+Proof.
+  assert (Hbase : forall (s : vsock) (acc : on_ack_result) s' r early,
+    acc_ok acc -> joint_rel (ar_acked_bytes acc) s ->
+    (if v_inbox_closed s
+     then sbind (maybe_send_fin (transition_to_fin_wait_1 s))
+                (fun s2 _ => SOk (set_state s2 Closed) (acc, true))
+     else SOk (set_inbox_waker s true) (acc, false)) = SOk s' (r, early) ->
+    acc_ok r /\ joint_rel (ar_acked_bytes r) s').
+  { intros s acc s' r early Hok Hj. destruct (v_inbox_closed s).
+    - pose proof (maybe_send_fin_jt (transition_to_fin_wait_1 s)) as Hm.
+      assert (Ht : jt_frame s (transition_to_fin_wait_1 s))
+        by (unfold transition_to_fin_wait_1, jt_frame; destruct (v_state s); vsimpl; repeat split).
+      destruct (maybe_send_fin (transition_to_fin_wait_1 s)) as [s2 b|s2 e|]; cbn [sbind]; [|discriminate|discriminate].
+      intro H; injection H as <- <- _. split; [exact Hok|].
+      eapply joint_frame; [exact Hj|]. eapply jt_trans; [exact Ht|]. eapply jt_trans; [exact Hm|].
+      unfold jt_frame; vsimpl; repeat split.
+    - intro H; injection H as <- <- _. split; [exact Hok|].
+      eapply joint_frame; [exact Hj|]. unfold jt_frame; vsimpl; repeat split. }
+  induction fuel as [|m0 fuel IH]; intros s acc s' r early Hok Hj; cbn [recv_loop];
+    destruct (v_inbox s) as [|m rest] eqn:Ei; try (apply Hbase; assumption); try discriminate.
+  destruct (process_incoming_message cci (set_inbox s rest) m) as [s1 r0|s1 e|] eqn:Ep; cbn [sbind];
+    [|discriminate|discriminate].
+  assert (Hj0 : joint_rel (ar_acked_bytes acc) (set_inbox s rest))
+    by (eapply joint_frame; [exact Hj|]; unfold jt_frame; vsimpl; repeat split).
+  destruct (process_incoming_message_joint _ _ _ _ _ Hj0 Ep) as (Hj1 & Hok0).
+  assert (Hok1 : acc_ok (result_update acc r0)) by (apply acc_ok_update; assumption).
+  assert (Hj1' : joint_rel (ar_acked_bytes (result_update acc r0)) s1) by exact Hj1.
+  destruct (_ || _).
+  - intro H; injection H as <- <- _. auto.
+  - intro H. eapply IH; eauto.
+Qed.
+
+(* once the receive loop has returned (with either value of `early`: the channel-closed arm
+   included), the rest of process_all_incoming_messages never reports BugTruncateFront and
+   re-establishes removed_offset = bytes truncated from the ring, in every state *)
+Theorem joint_inv_process_all (s : vsock) s1 r early :
+  joint_rel 0 s ->
+  recv_loop cci (v_inbox s ++ [ {| m_hdr := outgoing_header s; m_payload := [] |} ]) s
+            on_ack_result_default = SOk s1 (r, early) ->
+  match process_all_incoming_messages cci s with
+  | SOk s' _ => joint_rel 0 s'
+  | SErr _ _ => False
+  | SPanic => True
+  end.
+Proof.
+  intros Hj El. unfold process_all_incoming_messages. rewrite El. cbn [sbind].
+  assert (Hj' : joint_rel (ar_acked_bytes on_ack_result_default) s) by exact Hj.
+  destruct (recv_loop_joint _ _ _ _ _ _ acc_ok_default Hj' El) as ((Hs0 & Hb0 & Hz) & Hj1).
+  set (s2 := if (0 <? ar_acked_segments r) || (0 <? ar_newly_sacked_segments r) then _ else s1).
+  assert (H2 : jt_frame s1 s2).
+  { unfold s2. destruct (_ || _); [|apply jt_refl].
+    unfold restart_remote_inactivity_timer.
+    destruct (ss_segs (v_segs (set_rto_retransmissions s1 0))); [destruct (our_fin_if_unacked _)|];
+      unfold jt_frame; vsimpl; repeat split. }
+  pose proof (joint_frame _ _ _ Hj1 H2) as Hj2. clearbody s2.
+  assert (Hfin : forall s3 : vsock, joint_rel 0 s3 ->
+    match (match rv_phase (v_recovery s3) with
+           | Recovering rc =>
+               match calc_pipe (v_segs s3) (rc_high_rxt rc) (v_last_sent_seq_nr s3)
+                               (roundtrip_time (v_rtte s3)) (v_now s3) with
+               | None => SPanic
+               | Some (segs', pipe, recalc) =>
+                   SOk (set_recovering (VSockRec.set_segs s3 segs')
+                          {| rc_recovery_point := rc_recovery_point rc; rc_high_rxt := rc_high_rxt rc;
+                             rc_total_retx := rc_total_retx rc; rc_pipe := pipe; rc_recalc := recalc;
+                             rc_cwnd := rc_cwnd rc |}) tt
+               end
+           | _ => SOk s3 tt
+           end) with
+    | SOk s' _ => joint_rel 0 s'
+    | SErr _ _ => False
+    | SPanic => True
+    end).
+  { intros s3 (I3 & J3 & B3). destruct (rv_phase (v_recovery s3)); try (unfold joint_rel; auto; fail).
+    destruct (calc_pipe _ _ _ _ _) as [[[segs' pipe] recalc]|] eqn:Ec; [|exact I].
+    destruct (calc_pipe_fields _ _ _ _ _ _ _ _ Ec) as (A & B).
+    unfold joint_rel, set_recovering. vsimpl. rewrite A, B.
+    split; [eapply calc_pipe_inv; eauto|auto]. }
+  destruct Hj2 as (I2 & J2 & B2).
+  destruct (Z.ltb_spec 0 (ar_acked_segments r)) as [Hpos|Hneg].
+  - assert (Hle : ar_acked_bytes r <= Z.of_nat (length (ring (v_tx s2)))).
+    { destruct I2 as (L1 & L2 & L3 & _). pose proof (tiled_sizes_nonneg _ _ L3). lia. }
+    unfold truncate_front. cbv zeta. rewrite (Z.min_l _ _ Hle), Z.eqb_refl.
+    unfold wake_writer. cbn [sbind]. apply Hfin.
+    unfold joint_rel, add_wakes. vsimpl. cbn [upd ring g_removed].
+    split; [exact I2|]. rewrite skipn_length. split; lia.
+  - cbn [sbind]. apply Hfin. unfold joint_rel. split; [exact I2|]. split; lia.
+Qed.
+
+End Joint.
